@@ -1,4 +1,5 @@
 import FitProps.DecoderApiHistLemmas
+import FitProps.DecoderApiTailLemmas
 /-!
 # C07 — A sequence decodes the same whatever the decoder did before
 
@@ -9,7 +10,8 @@ the options. The theorems relate the decoder object (`Fit.DecApi.run`, the model
 code) to that specification for **every** history, every byte stream, every option set and every factory.
 
 PROPERTY THEOREMS (audited by ./check): C07_decode_from_clean, C07_boundary_clean, C07_reset_is_new,
-C07_integrity_check_is_new, C07_history_indep, C07_rejected_everywhere, C07_peek_transparent, C07_former_witnesses
+C07_integrity_check_is_new, C07_history_indep, C07_rejected_everywhere, C07_decode_ignores_tail, C07_peek_transparent,
+C07_former_witnesses
 -/
 namespace Fit.C07
 open Fit.DecApi
@@ -234,6 +236,10 @@ def isFileIdOut : Out → Bool
   | .fileId _ => true
   | _ => false
 
+def isFitOut : Out → Bool
+  | .fit _ => true
+  | _ => false
+
 /-- **`PeekFileId` is transparent, also for a sequence without file_id message** (the former F09): on `Q ++ P` (`Q` has
 no file_id) the peek answers with a FileId whose fields are all invalid and stops at the end of `Q`'s messages; the
 `Decode` that follows returns `Q` as a new decoder does, and the next `Decode` returns `P`. -/
@@ -256,6 +262,36 @@ example : Small (P ++ S) ∧ Small (P ++ B ++ S) ∧ OpSmall (.reset {} S) ∧ F
 
 example : Agree {} (P ++ B ++ S) [.checkIntegrity, .next, .peekFileId, .decode, .decode, .reset {} S, .decode] ∧
     Agree { ml := true } (P ++ P) [.peekFileId, .decodeCtxAt 0, .decode, .reset { ml := true } P, .decodeCtxAt 2, .decode] := by decide
+
+/-- **What `Decode` returns for a sequence is a function of the sequence's bytes, not of what follows it.** The
+specification asks of every `Decode` of a history what a new decoder returns on the stream *from the first byte of the
+current sequence on*; this theorem closes the gap to "the sequence's bytes": if a new decoder on `S` alone returns a FIT,
+then on `S ++ T`, whatever `T` is (the next sequences of a chain, garbage, nothing), it returns the same FIT, makes the same
+listener calls and stands where it stood with `T` still to be read; and if it rejects `S` with an error other than "the
+stream ended" (a truncated `S` can of course be completed by `T`), it rejects `S ++ T` with that error after the same
+listener calls. With `C07_history_indep`: whatever the history, a sequence is decoded as if it were alone. -/
+theorem C07_decode_ignores_tail (o : Opts) (S T : List Nat) (hS : IsBytes S) (hf : FacOK o.fac) :
+    (∀ s' f evs, stepDecode (St.fresh o S) = (s', .fit f, evs) →
+      stepDecode (St.fresh o (S ++ T)) = ({ s' with rest := s'.rest ++ T }, .fit f, evs)) ∧
+    (∀ s' e evs, stepDecode (St.fresh o S) = (s', .err e, evs) → e ≠ .eof →
+      (stepDecode (St.fresh o (S ++ T))).2 = (.err e, evs)) := by
+  have h := stepDecode_ext T (St.fresh o S) ⟨hS, DefsOK.empty, (by decide : (0 : Nat) < 4294967296), hf⟩
+  have hx : ext T (St.fresh o S) = St.fresh o (S ++ T) := rfl
+  rw [hx] at h
+  refine ⟨fun s' f evs hd => ?_, fun s' e evs hd hne => ?_⟩
+  · rw [hd] at h
+    exact h
+  · rw [hd] at h
+    rcases h with h | h
+    · exact absurd h hne
+    · exact h
+
+/-- non-vacuity: `P` alone is accepted and leaves nothing unread; followed by `S`, by garbage, it decodes alike; the
+corrupted `B` is rejected with a CRC error alone and in front of `P` -/
+example : isFitOut (stepDecode (St.fresh {} P)).2.1 = true ∧ (stepDecode (St.fresh {} P)).1.rest = [] ∧
+    (stepDecode (St.fresh {} (P ++ S))).2 = (stepDecode (St.fresh {} P)).2 ∧
+    (stepDecode (St.fresh {} (P ++ [1, 2, 3]))).1.rest = [1, 2, 3] ∧
+    (stepDecode (St.fresh {} B)).2.1 = .err .crc ∧ (stepDecode (St.fresh {} (B ++ P))).2.1 = .err .crc := by decide +kernel
 
 /-- **A sequence a new decoder rejects is rejected in every context** (corollary): if the specification says that the
 `Decode` at position `i` of the history must fail with `e` — i.e. a decoder created on exactly the bytes of that sequence
